@@ -908,6 +908,33 @@ def _is_local_procedure(fnode, hnode):
     return not any(isinstance(x, (ast.FunctionDef, ast.Lambda, ast.ClassDef)) for st in hnode.body for x in ast.walk(st))
 
 
+def _conditional_values_to_statements(stmts, repo, f, new_funcs, resolve_helper):
+    """x = A(..) if c else B(..)   /   return A(..) if c else B(..)      with a new helper called in an arm
+    ->  if c: x = A(..) else: x = B(..)      so that the arm's call stands in statement position and can be spliced"""
+    out = []
+    for st in stmts:
+        v = getattr(st, "value", None)
+        if isinstance(st, (ast.Assign, ast.Return)) and isinstance(v, ast.IfExp):
+            def has_new(e):
+                for c in ast.walk(e):
+                    if isinstance(c, ast.Call):
+                        h, _ = resolve_helper(repo, f, c)
+                        if h is not None and h.qname in new_funcs and h.node is not f.node:
+                            return True
+                return False
+            if has_new(v.body) or has_new(v.orelse):
+                def mk(val):
+                    if isinstance(st, ast.Return):
+                        return ast.Return(value=val, lineno=st.lineno, col_offset=0)
+                    return ast.Assign(targets=copy.deepcopy(st.targets), value=val, lineno=st.lineno, col_offset=0)
+                n = ast.If(test=v.test, body=[mk(v.body)], orelse=[mk(v.orelse)], lineno=st.lineno, col_offset=0)
+                ast.fix_missing_locations(n)
+                out.append(n)
+                continue
+        out.append(st)
+    return out
+
+
 def inline_new_helpers(repo, new_funcs, resolve_helper, bind_args, max_rounds=2):
     """transform repo.funcs' ASTs in place; returns {caller qname: [helper qnames spliced]}"""
     report = {}
@@ -921,6 +948,7 @@ def inline_new_helpers(repo, new_funcs, resolve_helper, bind_args, max_rounds=2)
                 nonlocal changed
                 stmts = _duplicate_tail_into_arms(stmts, repo, f, new_funcs, resolve_helper)
                 stmts = _first_of_generator(stmts, repo, f, new_funcs, resolve_helper)
+                stmts = _conditional_values_to_statements(stmts, repo, f, new_funcs, resolve_helper)
                 out = []
                 for st in stmts:
                     # recurse into compound statements first
